@@ -69,6 +69,14 @@ static void on_vtalrm(int sig)
     _exit(EX_HANG);
 }
 
+static void on_blocked(int sig)
+{
+    (void)sig;
+    const char* m = "VP-BLOCKED: the receive path made no progress for 300 s of wall-clock time without using CPU (blocked in a system call)\n";
+    if (write(2, m, strlen(m))) {}
+    _exit(85);
+}
+
 /* feed the next scripted datagram into the socket pair */
 static int feed_next(void)
 {
@@ -182,6 +190,7 @@ static int lst_driver_main(void)
                 int dn = open("/dev/null", O_WRONLY); if (dn >= 0) { dup2(dn, 1); close(dn); }
                 struct rlimit rl = { 20, 20 }; if (seq.repeat) rl.rlim_cur = rl.rlim_max = 60; setrlimit(RLIMIT_CPU, &rl);
                 struct sigaction sa; memset(&sa, 0, sizeof sa); sa.sa_handler = on_vtalrm; sigaction(SIGVTALRM, &sa, 0);
+                signal(SIGALRM, on_blocked); alarm(300);      /* backstop for a receive path that blocks without using CPU */
                 g_seq = &seq; g_next = 0; g_in_sentinel = 0; g_rounds_left = -1; g_fed = 0;
                 int rc = lst_child(mode, &seq);
                 _exit(rc);
